@@ -131,6 +131,19 @@ def _secure_int(res):
     return v, None
 
 
+
+def _mode_verdict(v, data):
+    """Python's mode is the most common value that is met first.  A result that is the SMALLEST of several most common values (and not the
+    first one met) is the listed known finding C34/mode-ties, delimited exactly by this predicate; anything else is a different violation."""
+    e = statistics.mode(list(data))
+    if v == e: return True
+    d = list(data); top = max(d.count(a) for a in set(d)); modes = sorted(a for a in set(d) if d.count(a) == top)
+    if len(modes) > 1 and v == modes[0]:
+        return ('class', 'several-modes:smallest-returned-instead-of-first-encountered',
+                f'expected {e} (Python statistics.mode: of several most common values the first one encountered), got the smallest one {v}')
+    return f'expected {e} (Python statistics.mode)'
+
+
 def ck_int(fname):
     def ck(args, res, exc):
         tname, data, extra, seed = args
@@ -143,7 +156,8 @@ def ck_int(fname):
             return v in {math.isqrt(c) for c in cands} or f'expected isqrt of the variance {var} rounded to nearest: {sorted(math.isqrt(c) for c in cands)}'
         e = o_exact(fname, data, extra)
         _cross(fname, data, extra, e)
-        if fname in ('median_low', 'median_high', 'mode'):
+        if fname == 'mode': return _mode_verdict(v, data)
+        if fname in ('median_low', 'median_high'):
             return v == e or f'expected {e} (Python statistics.{fname})'
         if fname == 'quantiles':
             if not isinstance(res, list) or len(v) != len(e): return f'expected {len(e)} cut points'
@@ -246,8 +260,7 @@ def ck_fxp(fname):
         v, m = _secure_int(res)
         if m: return m
         if fname == 'mode':
-            e = statistics.mode(list(data))
-            return v == e or f'expected {e} (Python statistics.mode)'
+            return _mode_verdict(v, data)
         iv = interval(fname, f, data, extra)
         if iv is None: return 'oracle: data too ill-conditioned for a tolerance (input generator error)'
         eps = 1e-12
@@ -500,7 +513,8 @@ def _mk():
                 + (' (non-constant x' + (' and y' if fname == 'correlation' else '') + ')' if fname != 'covariance' else ''))
     for fname in ALL:
         add(f'errors_{fname}', fname, ck_error(fname), in_errors(fname), 'empty data, too few points, unequal lengths, bad n / method, unsupported secure integers; SecInt(32) and SecFxp(32,16)')
-        add(f'plain_{fname}', fname, ck_plain(fname), in_plain(fname), 'plain ints / floats: relayed to Python', call=call_plain(fname))
+        # plain (non-secure) data is outside the property ("for data of secure integers or fixed-point numbers"): the relay checks written first
+        # (plain_*) demanded more than the property states and were removed; see DESIGN.md 9 (median_low/median_high relay plain data to statistics.median)
     return out
 
 
@@ -514,8 +528,8 @@ def run_slice(name, tier, i, k):
     s = Native(n.name, n.func, n.call, n.check, lambda t: itertools.islice(n.inputs(t), i, None, k), f'{n.bound} [slice {i + 1}/{k}]', module=n.module)
     o = s.run(tier)
     o.name = f'{o.name}[{i + 1}/{k}]'
-    return [o]
+    return [o] + s.known
 
 
 def run_group(names, tier):
-    return [NATIVE[n].run(tier) for n in names]
+    return [o for n in names for o in NATIVE[n].run_all(tier)]
